@@ -378,6 +378,17 @@ def _lookup_queue(qid):
     return _SCHED.queues[qid]
 
 
+def _lookup_sync(oid):
+    return _SCHED.syncs[oid]
+
+
+def _register_sync(s, obj):
+    if not hasattr(s, "syncs"):
+        s.syncs = {}
+    obj.oid = len(s.syncs)
+    s.syncs[obj.oid] = obj
+
+
 class SimQueue:
     def __init__(self, s, maxsize=0):
         self.s = s
@@ -387,6 +398,7 @@ class SimQueue:
         self.items = []
         self.closed_in = set()
         self.max_depth = 0
+        self.unfinished = 0
 
     def __reduce__(self):
         return (_lookup_queue, (self.qid,))
@@ -412,6 +424,7 @@ class SimQueue:
             if room is not None and not room():
                 raise _queue.Full()
         self.items.append(data)
+        self.unfinished += 1
         self.max_depth = max(self.max_depth, len(self.items))
 
     def get(self, block=True, timeout=None):
@@ -466,6 +479,15 @@ class SimQueue:
 
     def get_nowait(self):
         return self.get(False)
+
+    def task_done(self):
+        if self.unfinished <= 0:
+            raise ValueError("task_done() called too many times")
+        self.unfinished -= 1
+        self.s.point(f"task_done:q{self.qid}")
+
+    def join(self):
+        self.s.point(f"qjoin:q{self.qid}", pred=lambda: self.unfinished <= 0, blocked_on=f"join of q{self.qid}")
 
     def put_nowait(self, obj):
         return self.put(obj, False)
@@ -622,12 +644,106 @@ def sim_wait(object_list, timeout=None):
     return ready()
 
 
+class SimEvent:
+    """multiprocessing.Event under the scheduler"""
+
+    def __init__(self, s):
+        self.s = s
+        self.flag = False
+        _register_sync(s, self)
+
+    def __reduce__(self):
+        return (_lookup_sync, (self.oid,))
+
+    def is_set(self):
+        self.s.point("event:is_set")
+        return self.flag
+
+    def set(self):
+        self.flag = True
+        self.s.point("event:set")
+
+    def clear(self):
+        self.flag = False
+        self.s.point("event:clear")
+
+    def wait(self, timeout=None):
+        self.s.point("event:wait", pred=lambda: self.flag, blocked_on="event.wait",
+                     deadline=None if timeout is None else self.s.now + max(0.0, float(timeout)))
+        return self.flag
+
+
+class SimLock:
+    """multiprocessing.Lock / RLock / Semaphore(value) under the scheduler (no ownership check)"""
+
+    def __init__(self, s, value=1):
+        self.s = s
+        self.value = value
+        _register_sync(s, self)
+
+    def __reduce__(self):
+        return (_lookup_sync, (self.oid,))
+
+    def acquire(self, block=True, timeout=None):
+        if not block:
+            if self.value <= 0:
+                return False
+            self.value -= 1
+            self.s.point("lock:acquire")
+            return True
+        self.s.point("lock:acquire", pred=lambda: self.value > 0, blocked_on="lock.acquire",
+                     deadline=None if timeout is None else self.s.now + max(0.0, float(timeout)))
+        if self.value <= 0:
+            return False
+        self.value -= 1
+        return True
+
+    def release(self):
+        self.value += 1
+        self.s.point("lock:release")
+
+    def __enter__(self):
+        self.acquire()
+        return self
+
+    def __exit__(self, *a):
+        self.release()
+        return False
+
+
 class SimContext:
     def __init__(self, s):
         self.s = s
 
     def Queue(self, maxsize=0):
         return SimQueue(self.s, maxsize)
+
+    def JoinableQueue(self, maxsize=0):
+        return SimQueue(self.s, maxsize)
+
+    def SimpleQueue(self):
+        return SimQueue(self.s, 0)
+
+    def Event(self):
+        return SimEvent(self.s)
+
+    def Lock(self):
+        return SimLock(self.s, 1)
+
+    RLock = Lock
+
+    def Semaphore(self, value=1):
+        return SimLock(self.s, value)
+
+    BoundedSemaphore = Semaphore
+
+    def cpu_count(self):
+        import os as _os
+
+        return _os.cpu_count()
+
+    def get_start_method(self, allow_none=False):
+        return "spawn"
 
     def Process(self, group=None, target=None, name=None, args=(), kwargs=None):
         return SimProcess(self.s, target=target, args=args, kwargs=kwargs, name=name)
